@@ -677,3 +677,52 @@ func IfaceLocks(k string) int {
 	rlockGuard.Unlock()
 	return v
 }
+
+// ---- channels (simulated when the library makes and uses them itself, without select) ----
+
+type squareJob struct {
+	i, v int
+}
+
+// ChanPool: unbuffered job channel, buffered semaphore, results channel, close + range, a
+// done channel closed to release a waiter, receive with ok.
+func ChanPool(xs []int) int {
+	jobs := make(chan squareJob)
+	results := make(chan squareJob, len(xs))
+	sem := make(chan struct{}, 2)
+	done := make(chan struct{})
+	var wg sync.WaitGroup
+	for w := 0; w < 3; w++ {
+		wg.Add(1)
+		go func() {
+			defer wg.Done()
+			for j := range jobs {
+				sem <- struct{}{}
+				results <- squareJob{j.i, j.v * j.v}
+				<-sem
+			}
+			<-done
+		}()
+	}
+	go func() {
+		for i, v := range xs {
+			jobs <- squareJob{i, v}
+		}
+		close(jobs)
+	}()
+	out := make([]int, len(xs))
+	for range xs {
+		r := <-results
+		out[r.i] = r.v
+	}
+	close(done)
+	wg.Wait()
+	if _, ok := <-jobs; ok {
+		panic("closed channel delivered a value")
+	}
+	sum := 0
+	for _, v := range out {
+		sum += v
+	}
+	return sum
+}
